@@ -92,7 +92,7 @@ Phase(h, r) == IF h = <<>> THEN r
 Next == /\ ~err /\ Len(hist) < MaxLen
         /\ \E i \in DOMAIN RN :
              /\ ~(hist # <<>> /\ Last(hist).lang = "go" /\ Last(hist).kind = "o" /\ RN[i].kind = "b")
-             /\ (Len(hist) >= 1 => (i + sum) % NSlices = Slice)
+             /\ (Len(hist) >= 2 => (i + sum) % NSlices = Slice)
              /\ LET r == Phase(hist, RN[i])
                     out == ApplyRule(SN, cur, r) IN
                   /\ Defined(SN, cur, r)
